@@ -88,6 +88,30 @@ def ref_head(prefix, topic):
     if not n.isdigit() or not all(48 <= x <= 57 for x in n) or int(n) > 255: return None
     return int(n), rest[i + 1:]
 
+import re
+NUM_RE = re.compile(rb'\A(-?)([0-9]+)(\.[0-9]*)?\Z')
+def ref_percent(msg):
+    """value of a percentage payload per the grammar ['-'] digit+ ['.' digit*] with integer part 0..100, else None"""
+    m = NUM_RE.match(msg)
+    if not m: return None
+    val = int(m.group(2))
+    if val > 100 or (m.group(1) and val != 0): return None
+    return val
+VALUE_CMDS = ((b'set/closing_percentage', 'RSFB'), (b'set/tilt', 'RSFB'), (b'set/brightness', 'BRI'))
+def numeric_defects(rng):
+    """numeric payloads with one defect at each position, plus valid ones"""
+    out = [b'0', b'7', b'50', b'100', b'050', b'0100', b'100.0', b'50.5', b'50.', b'99.999999999999999999', b'-0', b'-0.0', b'0' * 30 + b'42',
+           b'101', b'255', b'256', b'1000', b'-1', b'-100', b'-', b'-.', b'-.5', b'.', b'.5', b'', b'+5', b'+', b' 5', b'5 ', b'5\0', b'\0', b'5\n',
+           b'1.2.3', b'1..2', b'50..', b'50.x', b'50.5x', b'30.-1', b'30.+1', b'99.turn_on', b'5-', b'5-0', b'--5', b'-+5', b'1e1', b'0x10', b'5,5', b'5/5',
+           b'4294967296', b'4294967346', b'2147483647', b'2147483648', b'2147483640', b'2147483639', b'99999999999', b'18446744073709551666', b'1' + b'0' * 40,
+           b'100' + b'0' * 20, b'0' * 60, b'9' * 60, b'50.' + b'1' * 60, b'50.' + b'1' * 30 + b'x']
+    base = rng.choice([b'50.25', b'100', b'-0.5', b'7.125', b'0042.50'])
+    for pos in range(len(base) + 1):
+        for ins in (b'.', b'-', b'+', b'x', b' ', b'e', b'\0', b'/'):
+            out.append(base[:pos] + ins + base[pos:])
+            if pos < len(base): out.append(base[:pos] + ins + base[pos + 1:])
+    return out
+
 def render(raw, uns, prec):
     v = raw if uns or raw < 2**63 else raw - 2**64
     neg = v < 0; a = -v if neg else v
@@ -99,8 +123,8 @@ def render(raw, uns, prec):
 
 class C17(F.PropCheck):
     pid = 'C17'; gen_groups = ['MqttConsts']; prop_file = 'Properties_C17'
-    IN = {'CFG': 0, 'CONNECT': 1, 'SETPFX': 2, 'SETON': 3, 'RSFB': 4, 'VAL': 5}
-    OUT = {0: 'PREFIX', 1: 'WIRE', 2: 'SETON', 3: 'RSFB', 4: 'VAL'}
+    IN = {'CFG': 0, 'CONNECT': 1, 'SETPFX': 2, 'SETON': 3, 'RSFB': 4, 'VAL': 5, 'BRI': 6}
+    OUT = {0: 'PREFIX', 1: 'WIRE', 2: 'SETON', 3: 'RSFB', 4: 'VAL', 5: 'BRI'}
     quick_cases = 2500; thorough_cases = 100000
     trusted_extra = ['C17 driver harness/drv/c17.c (+ c16_mqtt_wrap.c, c16_mqtt_board.c): configuration fields written as raw images, '
                      'CONNECT through the real init / dns-found / reconnect / conn_on_connect / mqtt_sync path and captured at espconn_sent; '
@@ -110,10 +134,10 @@ class C17(F.PropCheck):
     rule = ('CONNECT: user-name lengths 0..254 x password lengths 0..maximum storable+ (split across Password field and the tail behind the user name, '
             'stale bytes after terminators) x auth on/off x TLS x prefix lengths 0..49; parser: topics around <prefix>/channels/<N>/<command> '
             '(N 0..99999 and 10-40 digit numbers (k*2^32+n, around 2^31/2^32/2^63/2^64, long leading zeros), signs, dots, empty, wrong/missing separator after the prefix, missing/extra segments, prefix variants) x '
-            'payload variants (case, truncation, numbers with sign/fraction, every single-byte substitution 0x00..0xFF at every position of every keyword; byte substitutions in the command segment); rendering: 64-bit values (boundaries, powers of ten, random) x precision 0..20 x signedness; '
+            'payload variants (case, truncation, numeric values with one defect at each position for set/closing_percentage, set/tilt, set/brightness, every single-byte substitution 0x00..0xFF at every position of every keyword; byte substitutions in the command segment); rendering: 64-bit values (boundaries, powers of ten, random) x precision 0..20 x signedness; '
             'distinct by sha256 of the event text')
 
-    def build_impl(self): return C16M.build_mqtt('c17')
+    def build_impl(self): return C16M.build_mqtt('c17', ['-DMQTT_DIMMER_SUPPORT'])   # + parser_set_brightness
 
     # ---------------- generators
     def gen_connect(self, rng):
@@ -145,7 +169,7 @@ class C17(F.PropCheck):
             n = rng.choice([b'0', b'1', b'2', b'7', b'9', b'10', b'99', b'127', b'128', b'200', b'255', b'256', b'257', b'300', b'511', b'512', b'999', b'1000', b'65535', b'65536', b'99999',
                             b'-1', b'-0', b'-', b'-255', b'+1', b'1.5', b'1.', b'.5', b'-.5', b'007', b'0255', b'00256', b'', b' 1', b'1 ', b'0x10', b'1e2', b'12a', str(rng.randrange(0, 100000)).encode()])
             if rng.random() < 0.3: n = rng.choice(LONG_CHANNELS) if rng.random() < 0.8 else str(rng.randrange(10**19, 10**rng.randrange(20, 41))).encode()
-            cmds = [b'set/on', b'execute_action', b'set/closing_percentage', b'set/tilt']
+            cmds = [b'set/on', b'execute_action', b'set/closing_percentage', b'set/tilt', b'set/brightness']
             cmd = rng.choice(cmds)
             if cmd == b'set/on': pay = rng.choice(list(SET_ON) + [b'YES', b'True', b'fAlSe', b'No', b'2', b'on', b'tru', b'truee', b'', b'1 ', b'ye', b'yess'])
             elif cmd == b'execute_action': pay = rng.choice(list(EXEC_ON) + list(EXEC_RS) + [b'TURN_ON', b'Toggle', b'SHUT', b'Stop', b'turn_o', b'turn_onn', b'shutt', b'calibrat', b'', b'reveal '])
@@ -166,8 +190,10 @@ class C17(F.PropCheck):
             topic = p2 + sep + chs + n + sl2 + cmd
             if 0.88 <= m < 0.92: topic = topic[:rng.randrange(0, len(topic) + 1)]
             topic = topic[:60000]
-            evs.append(('RSFB' if rs else 'SETON', [len(topic)], topic + pay))
-            tags.append('rs' if rs else 'set_on')
+            evk = 'BRI' if cmd.startswith(b'set/brightness') or (cmd == b'set/brightness') else ('RSFB' if rs else 'SETON')
+            if rng.random() < 0.3 and not cmd.startswith(b'set/on') and cmd != b'execute_action': pay = rng.choice(numeric_defects(rng))
+            evs.append((evk, [len(topic)], topic + pay))
+            tags.append({'BRI': 'brightness', 'RSFB': 'rs', 'SETON': 'set_on'}[evk])
         return evs, sorted(set(tags))
 
     def gen_val(self, rng):
@@ -198,6 +224,13 @@ class C17(F.PropCheck):
             for ch in range(base, base + 50):
                 t = pfx + b'/channels/' + str(ch).encode() + b'/set/on'; evs.append(('SETON', [len(t)], t + b'1'))
             cases.append(F.Case('ch%d' % base, evs, ['exhaustive-channel']))
+        # numeric payloads (valid, and one defect at each position) for every value-carrying command
+        for (cmd, evk) in VALUE_CMDS:
+            t = pfx + b'/channels/9/' + cmd
+            evs = [('SETPFX', [], pfx)] + [(evk, [len(t)], t + m) for m in numeric_defects(rng)]
+            cases.append(F.Case('num_%s' % cmd.decode().replace('/', '-'), evs, ['exhaustive-numeric-defects']))
+            t2 = pfx + b'/channels/9/' + cmd + b'x'
+            cases.append(F.Case('num_%s_wrongcmd' % cmd.decode().replace('/', '-'), [('SETPFX', [], pfx), (evk, [len(t2)], t2 + b'50'), (evk, [len(t)], t + b'50')], ['exhaustive-numeric-defects']))
         # every single-byte substitution 0x00..0xFF at every position of every payload keyword, truncated/extended words
         for (cmd, words, rs) in ((b'set/on', list(SET_ON), False), (b'execute_action', list(EXEC_ON), False), (b'execute_action', list(EXEC_RS), True)):
             for w in words:
@@ -269,9 +302,11 @@ class C17(F.PropCheck):
                 if d.get('will_topic') != dp + b'/state/connected' or d.get('will_msg') != b'false' or d['will_qos'] != 0 or d['will_retain']:
                     v.append('last will is not <prefix>/state/connected = false (QoS 0, not retained)')
                 if v: return v
-            elif k in ('SETON', 'RSFB'):
+            elif k in ('SETON', 'RSFB', 'BRI'):
                 o = nxt(k)
-                if o is None: return v
+                if o is None:
+                    if status != 'ok': v.append('%s crashed (%s) on a %d-byte value: undefined behaviour instead of ignoring it' % (k, status, len(data) - ints[0]))
+                    return v
                 if prefix is None: continue
                 tl = ints[0]; topic = bytes(data[:tl]); msg = bytes(data[tl:])
                 got = o[1]
@@ -282,7 +317,12 @@ class C17(F.PropCheck):
                     if got[1] != h[0]:
                         v.append('%s acted on channel %d, the topic addresses channel %d' % (k, got[1], h[0])); return v
                     cmd = h[1]; low = msg.lower() if all(x < 128 for x in msg) else None
-                    if k == 'SETON':
+                    if k == 'BRI':
+                        val = ref_percent(msg)
+                        if cmd != b'set/brightness': v.append('BRI accepted an unknown command'); return v
+                        if val is None: v.append('BRI acted (brightness %d) on a value that is not a number 0..100 of the grammar [-]digits[.digits]' % got[2]); return v
+                        if got[2] != val: v.append('BRI brightness %d for value %d' % (got[2], val)); return v
+                    elif k == 'SETON':
                         exp = SET_ON.get(low if low is not None else msg) if cmd == b'set/on' else EXEC_ON.get(low) if cmd == b'execute_action' else None
                         if cmd == b'set/on' and msg in (b'1', b'0'): exp = int(msg)
                         if exp is None: v.append('SETON accepted an unknown command or value'); return v
@@ -291,9 +331,10 @@ class C17(F.PropCheck):
                         if cmd == b'execute_action':
                             if EXEC_RS.get(low) != got[2]: v.append('RSFB action %d for an execute_action value that does not name it' % got[2]); return v
                         elif cmd in (b'set/closing_percentage', b'set/tilt'):
-                            if msg.isdigit() and all(48 <= x <= 57 for x in msg) and len(msg) <= 9:
-                                val = int(msg); want = (5, val, 0) if cmd == b'set/closing_percentage' else (9, 0, val)
-                                if val > 100 or tuple(got[2:5]) != want: v.append('RSFB numeric command gave action %d percentage %d tilt %d for value %d' % (got[2], got[3], got[4], val)); return v
+                            val = ref_percent(msg)
+                            if val is None: v.append('RSFB acted (action %d, %d/%d) on a value that is not a number 0..100 of the grammar [-]digits[.digits]' % (got[2], got[3], got[4])); return v
+                            want = (5, val, 0) if cmd == b'set/closing_percentage' else (9, 0, val)
+                            if tuple(got[2:5]) != want: v.append('RSFB numeric command gave action %d percentage %d tilt %d for value %d' % (got[2], got[3], got[4], val)); return v
                         else: v.append('RSFB accepted an unknown command'); return v
                 else:
                     # must act when topic and value are plainly valid
@@ -301,7 +342,8 @@ class C17(F.PropCheck):
                         cmd = h[1]; low = msg.lower() if all(x < 128 for x in msg) else None
                         valid = False
                         if k == 'SETON': valid = (cmd == b'set/on' and low in SET_ON) or (cmd == b'execute_action' and low in EXEC_ON)
-                        else: valid = (cmd == b'execute_action' and low in EXEC_RS) or (cmd in (b'set/closing_percentage', b'set/tilt') and msg.isdigit() and all(48 <= x <= 57 for x in msg) and len(msg) <= 3 and int(msg) <= 100)
+                        elif k == 'BRI': valid = cmd == b'set/brightness' and ref_percent(msg) is not None
+                        else: valid = (cmd == b'execute_action' and low in EXEC_RS) or (cmd in (b'set/closing_percentage', b'set/tilt') and ref_percent(msg) is not None)
                         if valid: v.append('%s ignored a valid command for channel %d' % (k, h[0])); return v
             elif k == 'VAL':
                 o = nxt('VAL')
